@@ -71,6 +71,7 @@ type srcMutant struct {
 	start, end int
 	repl       string
 	units      []string
+	own        bool // -property: noticed by an obligation of that property's own check
 	path       string
 	mod        string
 }
@@ -192,19 +193,22 @@ func cmdMutate(args []string) int {
 		}
 	}
 	expected := expectedNames()
+	propOwn := map[string]bool{}   // -property: the obligations of that property's own check
+	propUnits := map[string]bool{} // -property: its units (functions of the check)
 	if *propF != "" {
 		spec, err := loadSpec(*propF)
 		if err != nil {
 			fmt.Fprintln(os.Stderr, err)
 			return 2
 		}
-		only := map[string]bool{}
 		for _, n := range spec.Expect {
 			if expected[n] {
-				only[n] = true
+				propOwn[n] = true
 			}
 		}
-		expected = only
+		for _, u := range spec.Units {
+			propUnits[u.Func] = true
+		}
 	}
 	var all []srcMutant
 	baseline := map[string]map[string]string{} // unit key -> agg name -> status
@@ -239,6 +243,17 @@ func cmdMutate(args []string) int {
 					key := obj.FullName()
 					if *funcF != "" && !strings.Contains(key, *funcF) {
 						continue
+					}
+					if *propF != "" {
+						hit := false
+						for k := range eng.funcs {
+							if (k == key || strings.HasPrefix(k, key+"$")) && propUnits[k] {
+								hit = true
+							}
+						}
+						if !hit {
+							continue
+						}
 					}
 					var units []string
 					for k := range eng.funcs {
@@ -344,12 +359,17 @@ func cmdMutate(args []string) int {
 						m.Status, m.KilledBy = "killed", n+" (vanished)"
 					} else if g != "proved" {
 						m.Status, m.KilledBy = "killed", n
+					} else {
+						continue
 					}
-					if m.Status == "killed" {
+					if propOwn[n] {
+						m.own = true
+					}
+					if len(propOwn) == 0 || m.own {
 						break
 					}
 				}
-				if m.Status == "killed" {
+				if m.Status == "killed" && (len(propOwn) == 0 || m.own) {
 					break
 				}
 			}
@@ -404,6 +424,17 @@ func cmdMutate(args []string) int {
 		}
 		data, _ := json.MarshalIndent(rep, "", " ")
 		os.WriteFile(filepath.Join(verifRoot, "mutation", "report.json"), append(data, '\n'), 0o644)
+	}
+	if *propF != "" {
+		ownN := 0
+		for _, m := range all {
+			if m.Status == "killed" && m.own {
+				ownN++
+			}
+		}
+		fmt.Printf("mutants of the units of %s: %d noticed by this check, %d only by the check of another property, %d survive with an explanation in mutation/triage.json, %d survive unexplained, %d do not compile\n",
+			*propF, ownN, counts["killed"]-ownN, counts["survived-triaged"], counts["survived"], counts["invalid"])
+		return 0
 	}
 	fmt.Printf("mutants: %d killed, %d survived without an explanation, %d survived and explained in mutation/triage.json, %d invalid (do not compile)\n", counts["killed"], counts["survived"], counts["survived-triaged"], counts["invalid"])
 	return 0
